@@ -375,6 +375,76 @@ def check_refusals(ctx, num=5):
            detail=f"{len(rs)} raise(s) in Segment.__init__")
 
 
+def check_writer_ids(ctx, num=2):
+    """Pipelines are told apart in the file by their id alone (the reader groups consecutive rows with the same id): every pipeline
+    written must get an id of its own."""
+    P = ctx.P
+    wr = P.fn(CSV, "WorkloadTraceGenerator.generate_rows")
+    ctx.touch(wr)
+    g = cfg_of(wr, subst_env=False)
+    calls = [c for c in own_nodes(wr.node) if isinstance(c, ast.Call) and norm.call_name(c) == "_pipeline_to_rows"]
+    ctx.count_min("_pipeline_to_rows call sites in generate_rows", len(calls), 1)
+    for c in calls:
+        lp = enclosing_for(c, wr.node)
+        ida = c.args[1] if len(c.args) >= 2 else norm.kwarg(c, "pipeline_id")
+        ok, d = False, f"id argument: {norm.U(ida) if ida is not None else None}"
+        if lp is not None and isinstance(ida, ast.Name):
+            defs = [n for n in ast.walk(lp) if isinstance(n, ast.Assign) and any(norm.is_name(t, ida.id) for t in n.targets)]
+            if len(defs) == 1 and isinstance(defs[0].value, ast.JoinedStr):
+                names = [x.id for x in ast.walk(defs[0].value) if isinstance(x, ast.Name)]
+                cn = names[0] if len(names) == 1 else None
+                incs = [n for n in own_nodes(wr.node) if isinstance(n, ast.AugAssign) and cn and norm.is_name(n.target, cn)]
+                others = [n for n in own_nodes(wr.node) if isinstance(n, ast.Assign) and cn and any(norm.is_name(t, cn) for t in n.targets) and any(a is lp for a in _anc14(n))]
+                if cn and len(incs) == 1 and not others:
+                    hid = g.node_of(lp).id
+                    every = g.path_avoiding(hid, {hid, g.exit.id}, {g.node_of(incs[0]).id}, edge_ok=lambda a, b, lab: not (a == hid and lab == "done")) is None
+                    mono = isinstance(incs[0].op, (ast.Add, ast.Sub)) and isinstance(incs[0].value, ast.Constant) and isinstance(incs[0].value.value, int) and incs[0].value.value != 0
+                    order = g.dominates(incs[0], defs[0]) and g.dominates(defs[0], c) and enclosing_for(incs[0], wr.node) is lp
+                    ok = every and mono and order
+                    d = (f"id = {norm.U(defs[0].value)}; `{stmt_text(incs[0])}` once per pipeline: {every}; strictly monotone: {mono}; counter stepped, then the id formed, then the rows written: {order}")
+        ctx.ob(num, "K3", "every pipeline written to a trace gets an id of its own (a counter stepped once per pipeline before the id is formed)", ok, wr, c,
+               construct="fresh pipeline id per written pipeline", detail=d)
+
+
+def check_arrival_source(ctx, num=2):
+    """What batch_by_pipeline hands on for a group of rows: the arrival time written on the group's *first* row (the only row that
+    carries one) and the pipeline built from that very group."""
+    P = ctx.P
+    f = P.fn(CSV, "CSVWorkloadReader.batch_by_pipeline")
+    ctx.touch(f)
+    from ..util import single_defs
+    g = cfg_of(f, subst_env=False)
+    ys = [c for c in own_nodes(f.node) if isinstance(c, ast.Call) and norm.call_name(c) == "PipelineArrival"]
+    ctx.count_min("PipelineArrival( sites in batch_by_pipeline", len(ys), 1)
+    from . import sched
+    for c in ys:
+        a = norm.kwarg(c, "arrival_seconds", 0)
+        p_ = norm.kwarg(c, "pipeline", 1)
+
+        def resolve(e):
+            if isinstance(e, ast.Name):
+                ds = [d for d in sched.reaching_defs(f, g, c, e.id) if isinstance(d, ast.Assign)]
+                if len(ds) == 1:
+                    return ds[0].value
+            return e
+        ar, pr = resolve(a) if a is not None else None, resolve(p_) if p_ is not None else None
+        grp = None
+        if isinstance(pr, ast.Call) and norm.call_name(pr) == "create_pipeline_from_batch" and len(pr.args) == 1:
+            grp = norm.U(pr.args[0])
+        ok = grp is not None and ar is not None and norm.U(ar) == f"{grp}[0].arrival_seconds"
+        ctx.ob(num, "K6", "a pipeline read from a trace carries the arrival time of the first row of its own group, and is built from that group", ok, f, c,
+               construct="PipelineArrival(group[0].arrival_seconds, create_pipeline_from_batch(group))", detail=f"arrival = {norm.U(ar) if ar is not None else None}; pipeline = {norm.U(pr) if pr is not None else None}")
+
+
+def _anc14(n):
+    out = []
+    p_ = parent(n)
+    while p_ is not None:
+        out.append(p_)
+        p_ = parent(p_)
+    return out
+
+
 REFUSAL_ERRORS = {"ValueError", "KeyError", "EudoxiaException", "Exception", "BaseException", "LookupError", "TypeError"}
 
 
@@ -411,6 +481,8 @@ def run(ctx):
     check_refusals_propagate(ctx, 5)
     dct, wr, pr, rp = check_tables(ctx, 1)
     check_flows(ctx, dct, wr, pr, rp, 2)
+    check_writer_ids(ctx, 2)
+    check_arrival_source(ctx, 2)
     check_none_vs_zero(ctx, 3)
     check_refusals(ctx, 5)
     c05.check_scaling(_R(ctx, {1: 6, 2: 6, 3: 6, 4: 6}), 6)
